@@ -1,0 +1,39 @@
+//go:build verif
+
+package main
+
+// Contracts for the verification machinery in /verif (see /verif/DESIGN.md).
+// This file contains only comments; it is compiled to nothing.
+
+//@ prop C19
+
+//@ immutable go/build.Default
+//@ extern (*go/types.object).Name() string
+//@   pure
+//@ extern (go/types.Type).String() string
+//@   pure
+
+// sizes appends the layout of struct type typ placed at offset base: the appended entries tile
+// [base, base + size of typ) without gaps or overlaps (first entry starts at base, every entry
+// ends where the next starts, the last ends at base + the compiler's size of typ), and what was
+// in out before is untouched.
+//@ func sizes
+//@   uses     gcsizes:gcspec, offS_is_gcOff, endS_is_gcEnd
+//@   requires base >= 0 && build.Default.GOARCH != "amd64p32" && (typ.NumFields() > 0 || len(out) == 0)
+//@   ensures  [prefix] len(result) >= len(out) && (forall k int :: {result[k]} 0 <= k && k < len(out) ==> result[k] == out[k])
+//@   ensures  [empty]  typ.NumFields() == 0 ==> len(result) == len(out)
+//@   ensures  [start]  typ.NumFields() > 0 ==> len(result) > len(out) && result[len(out)].Start == base
+//@   ensures  [chain]  forall k int :: {result[k]} len(out) <= k && k < len(result) - 1 ==> result[k].End == result[k+1].Start
+//@   ensures  [end]    typ.NumFields() > 0 ==> result[len(result)-1].End == base + gcsizes.gcSize(gcsizes.archWord(), gcsizes.archMax(), typ)
+//@   loop 1   invariant [fields] len(fields) == i && (forall j int :: {fields[j]} 0 <= j && j < i ==> fields[j] == typ.Field(j))
+//@   loop 2   invariant [len]    len(offsets) == len(fields)
+//@   loop 2   invariant [shift]  forall j int :: {offsets[j]} 0 <= j && j < len(offsets) ==> offsets[j] == loopentry(offsets)[j] + (j < i ? base : 0)
+//@   loop 3   index q
+//@   loop 3   invariant [pos]    pos == base + gcsizes.endS(s.WordSize, s.MaxAlign, fields, q)
+//@   loop 3   invariant [prefix] len(out) >= len(old(out)) && (forall k int :: {out[k]} 0 <= k && k < len(old(out)) ==> out[k] == old(out)[k])
+//@   loop 3   invariant [start]  len(out) > len(old(out)) ==> out[len(old(out))].Start == base && out[len(out)-1].End == pos
+//@   loop 3   invariant [offs]   forall j int :: {offsets[j]} 0 <= j && j < len(offsets) ==> offsets[j] == base + gcsizes.offS(s.WordSize, s.MaxAlign, fields, j)
+//@   loop 3   invariant [sizes]  s != nil && s.WordSize == gcsizes.archWord() && s.MaxAlign == gcsizes.archMax() && gcsizes.wfSizes(s.WordSize, s.MaxAlign)
+//@   loop 3   invariant [none]   (len(out) == len(old(out)) ==> pos == base) && (q == 0 ==> len(out) == len(old(out)))
+//@   loop 3   invariant [grow]   len(out) >= len(old(out)) + q && len(fields) == typ.NumFields() && len(offsets) == len(fields)
+//@   loop 3   invariant [chain]  forall k int :: {out[k]} len(old(out)) <= k && k < len(out) - 1 ==> out[k].End == out[k+1].Start
